@@ -143,7 +143,7 @@ fn suffix_variants(defined: &[u8]) -> Vec<Vec<u8>> {
 
 pub fn run(cfg: &Cfg, rep: &mut Report) {
     // (1) directed + random definitions
-    let n = cfg.n(30, 36_000, 720_000);
+    let n = cfg.n(30, 36_000, 4_800_000);
     run_cases(cfg, "directed", n, rep, |rng, ctx| {
         let def = gen_def(rng);
         let mut cands = Vec::new();
